@@ -42,7 +42,7 @@ theorem segments_sum (ph : R → K) (amp : Attr K) (opd : Attr R) (S0 S1 : Int) 
   induction ms with
   | nil => simp [segFactor]
   | cons m ms ih =>
-    rw [sumList_cons, ih (List.Pairwise.of_cons hdis)]
+    rw [sumL_cons, ih (List.Pairwise.of_cons hdis)]
     have hrest : ∀ b ∈ ms, ∀ i j, ¬ (m i j = true ∧ b i j = true) := (List.pairwise_cons.mp hdis).1
     unfold segFactor
     simp only [List.any_cons, Bool.or_eq_true]
@@ -70,7 +70,7 @@ theorem segmented_eq_monolithic (ph : R → K) (amp : Attr K) (opd : Attr R) (S0
   rw [C07.plane_multiply_pointwise ph amp opd S0 S1 l hc hbig data hd r c,
       C07.plane_multiply_pointwise ph amp opd S0 S1 [g0] (by simpa using hc0) (by simpa using hbig0) data hd r c]
   congr 1
-  rw [sumList_cons, sumList_nil, add_zero]
+  rw [sumL_cons, sumL_nil, add_zero]
   have := segments_sum ph amp opd S0 S1 (l.map Seg.m) hdis r c
   rw [sumList_map] at this
   rw [this]
